@@ -113,12 +113,12 @@ theorem whole_frames (f : Facts) (hx : f.exclusive = true) (hf : f.failOnInterru
 one writer (or one lock region spanning every frame write and no write outside it), whole writes, no
 dropped write result, every failed or timed-out write ends the connection, and a dropped writing
 future cannot be followed by another frame.  (Blocking client, async client, WebSocket client,
-blocking server, async server, WebSocket server = endpoints 0..5 of the `torn` family.) -/
+blocking server, async server, WebSocket server, WebSocket proxy relay = endpoints 0..6 of the `torn` family.) -/
 theorem endpoints_disciplined :
-    ∀ ep, ep < 6 → (Gen.Torn.obs ep).map Obs.facts = some ⟨true, true⟩ := by decide
+    ∀ ep, ep < 7 → (Gen.Torn.obs ep).map Obs.facts = some ⟨true, true⟩ := by decide
 
 /-- `whole_frames` for each of the six endpoints with the facts the current source gives it. -/
-theorem whole_frames_endpoints (ep : Nat) (hep : ep < 6) :
+theorem whole_frames_endpoints (ep : Nat) (hep : ep < 7) :
     ∃ o, Gen.Torn.obs ep = some o ∧
     ∀ (evs : List (Ev Message)), (∀ e ∈ evs, e.Wf) →
       let c := run mlen o.facts evs Conn.init
@@ -218,7 +218,7 @@ endpoints with the facts extracted today, and every schedule: at every frame bou
 current `Message::from_slice` returns exactly the next completed frame (`C02.parse_complete`), and at the
 boundary after the last completed frame it accepts nothing (`C02.parse_sound` via
 `torn_tail_rejected_by_current_parser`) — the torn tail is never mistaken for a frame. -/
-theorem peer_resync_current (mode : OvMode) (sf : SumForm) (ep : Nat) (hep : ep < 6) :
+theorem peer_resync_current (mode : OvMode) (sf : SumForm) (ep : Nat) (hep : ep < 7) :
     ∃ o, Gen.Torn.obs ep = some o ∧
     ∀ (evs : List (Ev Message)), (∀ e ∈ evs, e.Wf) →
       let c := run mlen o.facts evs Conn.init
